@@ -298,6 +298,9 @@ def _r5(ctx):
 
 
 def run(ctx):
+    C.require_locals(ctx, ctx.func('marker_utils.find_marked_section'), ['index_start', 'index_end', 'source', 'destination', 'line', 'lines', 'i', 'comments', 'mov_instr', 'reverse', 'parser'])
+    C.require_locals(ctx, ctx.func('marker_utils.reduce_to_section'), ['start', 'end', 'isa'])
+    C.require_locals(ctx, ctx.func('osaca.inspect'), ['kernel', 'parsed_code', 'args', 'isa'])
     _r1(ctx)
     _r2(ctx)
     _r3(ctx)
